@@ -537,5 +537,6 @@ def to_text(doc, seg_term='~', ele_term='*', sub_term=':', eol='\n'):
             parts[15] = sub_term
         while parts and parts[-1] == '' and s['id'] != 'ISA':
             parts.pop()        # a writer of X12 trims trailing empty elements
-        out.append(' ' * s.get('lead', 0) + s['id'] + ele_term + ele_term.join(parts) + ele_term * s.get('trail', 0) + seg_term + eol)
+        out.append(' ' * s.get('lead', 0) + s['id'] + (ele_term + ele_term.join(parts) if parts or s['id'] == 'ISA' else '') +
+                   ele_term * s.get('trail', 0) + seg_term + eol)
     return ''.join(out)
